@@ -82,7 +82,7 @@ def conservation(ev):
                 r = sum(x['raw'] for x in ex['pieces'])
                 lo, hi = v, v * max(r, 1.0)
                 what = f'allowed [{lo!r}, {hi!r}] (oracle map-line excess ratio {r!r} over {len(ex["pieces"])} intervals)'
-            tol = R.ratio_tol(ex['L'], p['rep']) * max(abs(v), 1e-300)
+            tol = R.ratio_tol(ex['L'], p['rep'], s['aspect']) * max(abs(v), 1e-300)
             tol_t += tol
             lo_t += lo
             hi_t += hi
